@@ -440,7 +440,10 @@ impl Monitor for C06 {
         if self.every > 1 && self.opn % self.every != 0 && !matches!(h.last_op(), Some(Op::Rewind { .. })) {
             return;
         }
-        self.check(h, r, false);
+        // right after a batch deeper than the pruning window every retained checkpoint is looked at
+        // (stray ones are pruned again by the next batch)
+        let deep_batch = matches!(h.last_op(), Some(Op::Scan { limit, ok: true, .. }) if *limit > 100);
+        self.check(h, r, deep_batch);
     }
 
     fn at_end(&mut self, h: &mut Hist, r: &mut Reporter) {
